@@ -97,7 +97,7 @@ class Scenario:
             moving = [hist.lookup(b'INBOX', u) for u in a.shadow.uids[:k]
                       if u is not None]
             cmd = (b'MOVE ' if self.kind == 'move' else b'COPY ') + sset + \
-                b' Dest'
+                (b' INBOX' if self.spec.get('selfmove') else b' Dest')
         elif self.kind == 'expunge':
             k = rng.randint(1, n)
             await a.cmd(b'STORE 1:%d +FLAGS.SILENT (\\Deleted)' % k)
@@ -396,6 +396,55 @@ async def case_lock(spec: dict[str, Any], hist: History,
         env.cleanup()
 
 
+async def case_selfmove(spec: dict[str, Any], hist: History,
+                        counters: dict[str, int]) -> None:
+    """MOVE whose destination is the selected mailbox: after OK every moved
+    message is there exactly once (for the next session too)."""
+    env = await make_env(spec['backend'])
+    try:
+        a = Session(env, hist, 1, Sched(), spec['seed'])
+        await a.start()
+        cids = []
+        for _ in range(3):
+            await a.append(b'INBOX')
+            cids.append(b'm%s-%d' % (hist.case_id.encode(), hist.ncid))
+        await a.select(b'INBOX')
+        await a.fetch_all()
+        r = await a.cmd((b'UID MOVE %d:%d INBOX' % (
+            a.shadow.uids[0] or 1, a.shadow.uids[1] or 2))
+            if spec['uid'] else b'MOVE 1:2 INBOX')
+        counters['selfmoves'] = counters.get('selfmoves', 0) + 1
+        f = Session(env, hist, 9, Sched(), 9)
+        hist.sessions.remove(f)
+        await f.start()
+        await f.select(b'INBOX')
+        rr = await f.cmd(b'FETCH 1:* (BODY.PEEK[HEADER.FIELDS (X-VF-ID)])') \
+            if f.shadow.count else None
+        found = []
+        for u in (rr.untagged if rr is not None else []):
+            if u.typ == b'FETCH' and isinstance(u.data, dict):
+                for kk, vv in u.data.items():
+                    if kk.startswith(b'BODY[') and isinstance(vv, bytes):
+                        m = re.search(rb'X-VF-ID: *(\S+)', vv)
+                        if m:
+                            found.append(m.group(1))
+        for c in cids:
+            n = found.count(c)
+            if n == 0:
+                hist.report('moved-message-lost',
+                            'MOVE into the selected mailbox itself ended '
+                            'with %r; message %r is gone (the mailbox holds '
+                            '%r)' % (r.cond, c, found))
+                return
+            if n > 1 and r.cond == b'OK':
+                hist.report('moved-message-duplicated',
+                            'MOVE into the selected mailbox itself: %r is '
+                            'there %d times' % (c, n))
+                return
+    finally:
+        env.cleanup()
+
+
 class C14(Check):
     pid = 'C14'
     level = 'fault_enumeration'
@@ -434,7 +483,13 @@ class C14(Check):
                                          'expunge']),
                    'nmsgs': rng.randint(1, 5),
                    'drain': rng.choice([0, 2, 5]),
-                   'delay': rng.choice([0, 2, 6])}
+                   'delay': rng.choice([0, 2, 6]),
+                   'selfmove': i % 6 == 5}
+        # MOVE into the selected mailbox itself, no fault, every backend
+        for backend in ('dict', 'maildir', 'maildir-fs'):
+            for uid in (False, True):
+                yield {'kind': 'selfmove', 'seed': seed, 'backend': backend,
+                       'uid': uid}
         for backend in ('maildir', 'maildir-fs'):
             for victim in ('multiappend', 'copy'):
                 for k in (1, 2, 3):
@@ -453,6 +508,8 @@ class C14(Check):
             return self.run_maildir(spec)
         if spec['kind'] == 'lock':
             return self.run_lock(spec)
+        if spec['kind'] == 'selfmove':
+            return self.run_lock(spec, case_selfmove)
         random.seed(spec['seed'])
         counters: dict[str, int] = {}
         violations: list[dict[str, Any]] = []
@@ -526,12 +583,13 @@ class C14(Check):
                            'fault_points': len(faults)},
                 'aborted': None}
 
-    def run_lock(self, spec: dict[str, Any]) -> dict[str, Any]:
+    def run_lock(self, spec: dict[str, Any], fn: Any = None) \
+            -> dict[str, Any]:
         hist = History(str(spec['seed']))
         counters: dict[str, int] = {}
 
         async def main(loop: L.CtlLoop) -> None:
-            await case_lock(spec, hist, counters)
+            await (fn or case_lock)(spec, hist, counters)
 
         aborted = None
         try:
@@ -543,7 +601,8 @@ class C14(Check):
             v.setdefault('witness', {})['spec'] = spec
         return {'violations': hist.violations, 'counters': counters,
                 'sig': 'lock:' + repr(sorted(spec.items())),
-                'nontrivial': counters.get('lock_waits', 0) > 0,
+                'nontrivial': counters.get('lock_waits', 0) > 0 or
+                counters.get('selfmoves', 0) > 0,
                 'sample': {'spec': spec}, 'aborted': aborted}
 
     def run_maildir(self, spec: dict[str, Any]) -> dict[str, Any]:
